@@ -765,6 +765,220 @@ void project(OrangeInput const& inp, Proj& p)
     }
 }
 
+//---------------------------------------------------------------------------//
+// C19: hand-constructed OrangeInput values with rectangular arrays (public structs; orangeinp has
+// no array builder).  spec (tools/solids.py array_inputs): world half-widths, placement of the top
+// array, and a list of arrays {grid[3], cells [x][y][z] flattened}; a cell holds a corner-anchored
+// leaf unit ["C"], a centred leaf unit ["T"] or a nested array ["A", k].  Each array lives in a
+// wrapper unit (exterior + one all-space volume of z-order `array`) whose frame is the array's
+// frame.  A daughter whose offset is exactly zero gets NoTransformation, every other a Translation.
+//---------------------------------------------------------------------------//
+struct ArrayInputBuilder
+{
+    json const& spec;
+    OrangeInput inp;
+    std::map<std::string, size_type> leaf_ids;
+    std::vector<size_type> wrapper_of;  // array index -> universe id of its wrapper
+
+    static VariantTransform tf(Real3 const& t)
+    {
+        if (t[0] == 0 && t[1] == 0 && t[2] == 0)
+            return NoTransformation{};
+        return Translation{t};
+    }
+    static VolumeInput exterior(bool implicit)
+    {
+        VolumeInput v;
+        v.label = Label{"[EXTERIOR]"};
+        v.logic = {logic::ltrue, logic::lnot};
+        v.bbox = BBox::from_infinite();
+        v.flags = implicit ? VolumeRecord::implicit_vol : 0;
+        v.zorder = implicit ? ZOrder::implicit_exterior : ZOrder::exterior;
+        return v;
+    }
+    // logic "inside the box whose faces are f..f+5 (mx px my py mz pz) of the volume's face list"
+    static void box_logic(std::vector<logic_int>& l, logic_int f)
+    {
+        for (logic_int a = 0; a < 3; ++a)
+        {
+            l.push_back(f + 2 * a);
+            if (a > 0)
+                l.push_back(logic::land);
+            l.push_back(f + 2 * a + 1);
+            l.push_back(logic::lnot);
+            l.push_back(logic::land);
+        }
+    }
+    static void box_surfaces(UnitInput& u, std::string const& name, Real3 const& lo, Real3 const& hi)
+    {
+        u.surfaces.emplace_back(PlaneX{lo[0]});
+        u.surfaces.emplace_back(PlaneX{hi[0]});
+        u.surfaces.emplace_back(PlaneY{lo[1]});
+        u.surfaces.emplace_back(PlaneY{hi[1]});
+        u.surfaces.emplace_back(PlaneZ{lo[2]});
+        u.surfaces.emplace_back(PlaneZ{hi[2]});
+        for (char const* e : {"mx", "px", "my", "py", "mz", "pz"})
+            u.surface_labels.push_back(Label{name, e});
+    }
+    static Real3 lo_of(json const& a) { return {a.at("grid")[0].front().get<double>(), a.at("grid")[1].front().get<double>(), a.at("grid")[2].front().get<double>()}; }
+    static Real3 hi_of(json const& a) { return {a.at("grid")[0].back().get<double>(), a.at("grid")[1].back().get<double>(), a.at("grid")[2].back().get<double>()}; }
+
+    // leaf unit: a box cell split by an x plane into two volumes; corner-anchored or centred frame
+    size_type leaf(bool centred, Real3 const& w)
+    {
+        std::string key = std::string(centred ? "T" : "C") + "_" + std::to_string(w[0]) + "_" + std::to_string(w[1]) + "_" + std::to_string(w[2]);
+        if (auto it = leaf_ids.find(key); it != leaf_ids.end())
+            return it->second;
+        Real3 lo, hi;
+        for (int i = 0; i < 3; ++i)
+        {
+            lo[i] = centred ? -w[i] / 2 : 0;
+            hi[i] = centred ? w[i] / 2 : w[i];
+        }
+        UnitInput u;
+        u.label = Label{key};
+        u.bbox = BBox{lo, hi};
+        double mid = (lo[0] + hi[0]) / 2;
+        u.surfaces.emplace_back(PlaneX{mid});
+        u.surface_labels.push_back(Label{key, "split"});
+        u.volumes.push_back(exterior(true));
+        VolumeInput l, r;
+        l.label = Label{key + ".L"};
+        l.faces = {LocalSurfaceId{0}};
+        l.logic = {0, logic::lnot};
+        l.bbox = BBox{lo, Real3{mid, hi[1], hi[2]}};
+        l.zorder = ZOrder::media;
+        r.label = Label{key + ".R"};
+        r.faces = {LocalSurfaceId{0}};
+        r.logic = {0};
+        r.bbox = BBox{Real3{mid, lo[1], lo[2]}, hi};
+        r.zorder = ZOrder::media;
+        u.volumes.push_back(std::move(l));
+        u.volumes.push_back(std::move(r));
+        size_type id = static_cast<size_type>(inp.universes.size());
+        inp.universes.emplace_back(std::move(u));
+        leaf_ids.emplace(key, id);
+        return id;
+    }
+
+    explicit ArrayInputBuilder(json const& s) : spec(s)
+    {
+        auto const& arrays = spec.at("arrays");
+        std::size_t na = arrays.size();
+        inp.tol = Tolerance<>::from_default();
+        // universe ids: 0 global, then wrapper k = 1 + 2k, array k = 2 + 2k, then the leaves
+        inp.universes.resize(1 + 2 * na);
+        wrapper_of.resize(na);
+        for (std::size_t k = 0; k < na; ++k)
+            wrapper_of[k] = static_cast<size_type>(1 + 2 * k);
+
+        // global unit: world box, the box holding the top array, the rest
+        {
+            auto wh = spec.at("world").get<std::vector<double>>();
+            auto pl = spec.at("place").get<std::vector<double>>();
+            Real3 place{pl[0], pl[1], pl[2]};
+            Real3 alo = lo_of(arrays[0]), ahi = hi_of(arrays[0]);
+            for (int i = 0; i < 3; ++i)
+            {
+                alo[i] += place[i];
+                ahi[i] += place[i];
+            }
+            UnitInput g;
+            g.label = Label{"global"};
+            Real3 wlo{-wh[0], -wh[1], -wh[2]}, whi{wh[0], wh[1], wh[2]};
+            g.bbox = BBox{wlo, whi};
+            box_surfaces(g, "outer", wlo, whi);
+            box_surfaces(g, "arrfill", alo, ahi);
+            VolumeInput ext = exterior(false);
+            for (size_type f = 0; f < 6; ++f)
+                ext.faces.push_back(LocalSurfaceId{f});
+            ext.logic.clear();
+            box_logic(ext.logic, 0);
+            ext.logic.push_back(logic::lnot);
+            ext.flags = VolumeRecord::internal_surfaces;
+            VolumeInput fill;
+            fill.label = Label{"arrfill"};
+            for (size_type f = 6; f < 12; ++f)
+                fill.faces.push_back(LocalSurfaceId{f});
+            box_logic(fill.logic, 0);
+            fill.bbox = BBox{alo, ahi};
+            fill.zorder = ZOrder::media;
+            VolumeInput rest;
+            rest.label = Label{"interior"};
+            for (size_type f = 0; f < 12; ++f)
+                rest.faces.push_back(LocalSurfaceId{f});
+            box_logic(rest.logic, 0);
+            box_logic(rest.logic, 6);
+            rest.logic.push_back(logic::lnot);
+            rest.logic.push_back(logic::land);
+            rest.bbox = BBox{wlo, whi};
+            rest.flags = VolumeRecord::internal_surfaces;
+            rest.zorder = ZOrder::media;
+            g.volumes = {ext, fill, rest};
+            g.daughter_map.emplace(LocalVolumeId{1}, DaughterInput{UniverseId{wrapper_of[0]}, tf(place)});
+            inp.universes[0] = std::move(g);
+        }
+        for (std::size_t k = 0; k < na; ++k)
+        {
+            json const& a = arrays[k];
+            Real3 alo = lo_of(a), ahi = hi_of(a);
+            std::string name = "arr" + std::to_string(k);
+            // wrapper
+            UnitInput w;
+            w.label = Label{name};
+            w.bbox = BBox{alo, ahi};
+            w.volumes.push_back(exterior(true));
+            VolumeInput all;
+            all.label = Label{name + "+"};
+            all.logic = {logic::ltrue};
+            all.bbox = BBox{alo, ahi};
+            all.zorder = ZOrder::array;
+            w.volumes.push_back(std::move(all));
+            w.daughter_map.emplace(LocalVolumeId{1}, DaughterInput{UniverseId{static_cast<size_type>(2 + 2 * k)}, NoTransformation{}});
+            inp.universes[1 + 2 * k] = std::move(w);
+            // the array itself
+            RectArrayInput r;
+            r.label = Label{name + "+"};
+            for (int ax = 0; ax < 3; ++ax)
+                r.grid[ax] = a.at("grid")[ax].get<std::vector<double>>();
+            std::size_t n[3] = {r.grid[0].size() - 1, r.grid[1].size() - 1, r.grid[2].size() - 1};
+            auto const& cells = a.at("cells");
+            if (cells.size() != n[0] * n[1] * n[2])
+                throw std::runtime_error("harness: array spec has the wrong number of cells");
+            std::size_t c = 0;
+            for (std::size_t i = 0; i < n[0]; ++i)
+                for (std::size_t j = 0; j < n[1]; ++j)
+                    for (std::size_t kk = 0; kk < n[2]; ++kk, ++c)
+                    {
+                        Real3 clo{r.grid[0][i], r.grid[1][j], r.grid[2][kk]};
+                        Real3 chi{r.grid[0][i + 1], r.grid[1][j + 1], r.grid[2][kk + 1]};
+                        Real3 w3{chi[0] - clo[0], chi[1] - clo[1], chi[2] - clo[2]};
+                        std::string kind = cells[c][0].get<std::string>();
+                        DaughterInput d;
+                        if (kind == "C")
+                        {
+                            d.universe_id = UniverseId{leaf(false, w3)};
+                            d.transform = tf(clo);
+                        }
+                        else if (kind == "T")
+                        {
+                            d.universe_id = UniverseId{leaf(true, w3)};
+                            d.transform = tf(Real3{(clo[0] + chi[0]) / 2, (clo[1] + chi[1]) / 2, (clo[2] + chi[2]) / 2});
+                        }
+                        else
+                        {
+                            std::size_t sub = cells[c][1].get<std::size_t>();
+                            Real3 slo = lo_of(arrays.at(sub));
+                            d.universe_id = UniverseId{wrapper_of.at(sub)};
+                            d.transform = tf(Real3{clo[0] - slo[0], clo[1] - slo[1], clo[2] - slo[2]});
+                        }
+                        r.daughters.push_back(std::move(d));
+                    }
+            inp.universes[2 + 2 * k] = std::move(r);
+        }
+    }
+};
+
 bool json_has_involute(json const& j)
 {
     auto us = j.find("universes");
@@ -899,7 +1113,10 @@ int run_roundtrip(std::string const& scenes_path,
             if (!line.empty())
             {
                 json s = json::parse(line);
-                items.push_back({"scene" + std::to_string(s.at("id").get<int>()), "scene", s, ""});
+                if (s.contains("arrays"))
+                    items.push_back({s.at("name").get<std::string>(), "array", s, ""});
+                else
+                    items.push_back({"scene" + std::to_string(s.at("id").get<int>()), "scene", s, ""});
             }
     }
     for (auto const& it : items)
@@ -930,7 +1147,10 @@ int run_roundtrip(std::string const& scenes_path,
             }
             else
             {
-                a = build_scene(it.scene).input;
+                if (it.scene.contains("arrays"))
+                    a = ArrayInputBuilder(it.scene).inp;
+                else
+                    a = build_scene(it.scene).input;
             }
             Proj pa;
             project(a, pa);
